@@ -348,10 +348,16 @@
     "cmt-rec" (fn [n] [~{:main (+ (cmt (* (capture "a") :main) ,(fn [& xs] (length xs))) (constant 0))} (rep "a" n)])
     "replace-rec" (fn [n] [~{:main (+ (replace (* "a" :main) "z") "")} (rep "a" n)])
     "accumulate-rec" (fn [n] [~{:main (+ (accumulate (* (capture "a") :main)) "")} (rep "a" n)])
+    # repetition rules in front of a recursion: whatever they match, the recursion behind them must still be bounded
+    "lenprefix-then-paren" (fn [n] [~{:nest (+ (* "(" :nest ")") "") :main (* (lenprefix (* (number :d+) ":") 1) :nest)}
+                                    (string n ":" (rep "x" n) (rep "(" n) (rep ")" n))])
+    "repeat-then-paren" (fn [n] [~{:nest (+ (* "(" :nest ")") "") :main (* (any "x") (between 0 ,(max 1 n) "y") :nest)}
+                                 (string (rep "x" n) (rep "y" n) (rep "(" n) (rep ")" n))])
     "split-many" (fn [n] [~(split "," (capture "a")) (string/join (seq [i :range [0 (max 1 n)]] "a") ",")])})
 (def peg-match-shape-names
   ["paren-rec" "right-rec" "right-rec-capture" "left-rec" "self-loop" "left-rec-tail" "self-loop-tail" "mutual-rec" "any-loop" "any-capture" "not-rec"
-   "look-rec" "group-rec" "sub-rec" "to-rec" "cmt-rec" "replace-rec" "accumulate-rec" "split-many"])
+   "look-rec" "group-rec" "sub-rec" "to-rec" "cmt-rec" "replace-rec" "accumulate-rec" "split-many" "lenprefix-then-paren"
+   "repeat-then-paren"])
 (def peg-match-consumers
   @{"peg-match" (fn [[pat text]] (type (peg/match pat text)))
     "peg-find" (fn [[pat text]] (type (peg/find pat text)))
